@@ -19,12 +19,12 @@ import (
 )
 
 type C06Case struct {
-	Carriers []int `json:"carriers"` // from the sandboxed include downwards
-	Pos      int   `json:"pos"`      // occurrence position
-	Fn       bool  `json:"fn"`       // forbidden function instead of filter
-	MainWrap int   `json:"mainwrap"` // how the unsandboxed template holds the include
-	IncOpts  int   `json:"incopts"`  // options on the sandboxed include itself: bit0 with, bit1 only
-	Custom   bool  `json:"custom"`   // harness policy type instead of DefaultSecurityPolicy
+	Carriers []int `json:"carriers"`       // from the sandboxed include downwards
+	Pos      int   `json:"pos"`            // occurrence position
+	Fn       bool  `json:"fn"`             // forbidden function instead of filter
+	MainWrap int   `json:"mainwrap"`       // how the unsandboxed template holds the include
+	IncOpts  int   `json:"incopts"`        // options on the sandboxed include itself: bit0 with, bit1 only
+	Custom   bool  `json:"custom"`         // harness policy type instead of DefaultSecurityPolicy
 	Deny     bool  `json:"deny,omitempty"` // the refused names are listed in the policy with the value false instead of being absent
 	// second arm (checkC06Named): an explicit occurrence and the names the policy refuses,
 	// "f:<name>" for a function, "|<name>" for a filter; built-in names included
